@@ -156,6 +156,8 @@ def plan(exp, tier):
         for nm in ('Vec2', 'Vec3', 'Vec4'):
             veccore.add_spatial_basic(u, VEC[nm])
         veccore.add_unit_ctors(u)
+        import affcore
+        affcore.add_point_ctors(u)      # commonly used homogeneous constructors: keeps the unit deciding when a change starts calling them
         for m2 in (mat(4, 'rows'), mat(4, 'cols')):
             matcore.add_mat_struct(u, m2)
         for m2 in (mat(4, 'rows'), mat(4, 'cols')):
